@@ -1,6 +1,7 @@
 """C10 — malformed OpenFlow input is contained to the offending connection (DESIGN §5 C10)."""
 import os
 import signal, socket, errno, random
+import itertools
 import common, poxenv, ofgen
 from common import Check
 
@@ -111,7 +112,8 @@ class C10(Check):
                    "sw_contained (no branch of swLoop yields `dead`) and siblings_untouched (feedAt is List.set) hold by construction of the model; that the real loops behave like it is what every run tests by driving the real RecocoIOLoop.run / OpenFlow_01_Task.run generators with three connections",
                    "the no-over-read theorems constrain the offset a decoder reports; that a decoder does not PEEK past its window is the hypothesis WindowLocal (theorem sw_deliver_window_only), proved of the real decoders on well-formed messages by C01 and tested on every delivered window here (re-decoding it followed by other bytes)",
                    "non-termination is detected by a budget of 4 s CPU time (or 32 s wall time when blocked) per read call", "recv returns at most the bytes asked for"]
-    rule = ("case = (side, valid prefix messages, one malformed region, valid suffix messages, two sibling connections with valid traffic, cut positions); malformed region = every length value 0..len+8 of "
+    rule = ("[rounds] a case may serve all three connections in ONE select round per step, in a given order, and let a sibling lose its peer in that round; "
+            "case = (side, valid prefix messages, one malformed region, valid suffix messages, two sibling connections with valid traffic, cut positions); malformed region = every length value 0..len+8 of "
             "each of the 22 message types (corpus), type/version bytes, embedded lengths, truncations, byte flips, random bytes; non-trivial = the malformed region differs from a valid message")
 
     def setup(self):
@@ -199,6 +201,31 @@ class C10(Check):
                         c = self._mk(rng, side, self._valid(rng), npre=1, npost=2, cuts=cuts)
                         c["rx"] = {"kind": kind, "after": after}
                         cases.append(c)
+            # several connections readable in ONE select round, in every service order: a connection that gives up (length
+            # field < 8, wrong version), one that is answered/skipped, a valid one — next to siblings of which one may lose its
+            # peer (end of stream, reset, broken pipe) in that very round
+            hello = bytearray(self.of.ofp_hello(xid=3).pack())
+            bads = [bytes(hello[:2]) + b"\x00\x04" + bytes(hello[4:]), bytes([4]) + bytes(self.of.ofp_echo_request(xid=4).pack()[1:]),
+                    bytes([1, 0x63, 0, 8, 0, 0, 0, 5]), self.of.ofp_echo_request(xid=6).pack()]
+            for bad in bads:
+                for order in itertools.permutations((0, 1, 2)):
+                    for sibrx in (None, {"k": 1, "at": 1, "kind": "eof"}, {"k": 2, "at": 1, "kind": "reset"}, {"k": 1, "at": 1, "kind": "pipe"}, {"k": 2, "at": 0, "kind": "eof"}):
+                        c = self._mk(rng, side, bad, npre=1, npost=2)
+                        c["sib"] = [[self._valid(rng).hex() for _ in range(3)] for _ in range(2)]
+                        c["cuts"] = [sum(len(x) // 2 for x in c["pre"])]          # step 0: the valid prefix; step 1: the bad message and what follows
+                        c["round"] = list(order)
+                        if sibrx: c["sibrx"] = sibrx
+                        cases.append(c)
+            # a connection that gave up keeps receiving data in LATER reads: complete valid messages, each in its own read,
+            # must not be processed any more
+            for bad in bads[:2]:
+                for npost in (1, 3):
+                    c = self._mk(rng, side, bad, npre=1, npost=npost)
+                    e, p = [], 0
+                    for x in c["pre"] + [c["bad"]] + c["post"]:
+                        p += len(x) // 2; e.append(p)
+                    c["cuts"] = e[:-1]
+                    cases.append(c)
             # a wrong-version message as the very first data on a connection, arriving with only 4..7 of its bytes in the
             # first read (the bad-version path builds its reply from a partial header), and after valid traffic
             for v in (0, 4, 0x43):
@@ -264,7 +291,11 @@ class C10(Check):
                 m[2] = (L >> 8) & 0xff; m[3] = L & 0xff
             total = 400
             cuts = sorted(rng.randint(1, total) for _ in range(rng.choice([0, 0, 1, 2, 4])))
-            yield self._mk(rng, side, bytes(m), npre=rng.randint(0, 2), npost=rng.randint(0, 2), cuts=cuts)
+            c = self._mk(rng, side, bytes(m), npre=rng.randint(0, 2), npost=rng.randint(0, 2), cuts=cuts)
+            if rng.random() < 0.3:                              # all three connections readable in the same select rounds
+                c["round"] = rng.sample([0, 1, 2], 3)
+                if rng.random() < 0.4: c["sibrx"] = {"k": rng.choice([1, 2]), "at": rng.randint(0, 1), "kind": rng.choice(["eof", "reset", "pipe"])}
+            yield c
 
     # ------------------------------------------------------------------ implementation
     def impl(self, case):
@@ -316,13 +347,15 @@ class C10(Check):
         sib_del = [[], []]
         for k in (1, 2):
             cons[k].handlers = [(lambda c, m, k=k: sib_del[k - 1].append(bytes(m.pack()).hex()))] * 256
-        raised = [False] * 3
+        raised, gaveup = [False] * 3, [False] * 3
         for i, c in enumerate(cons):                      # remember whether read() returned False or raised
             def rd(c=c, i=i, real=c.read):
                 try:
-                    return real()
+                    r = real()
                 except BaseException:
                     raised[i] = True; raise
+                if r is False: gaveup[i] = True
+                return r
             c.read = rd
         task = of_01.OpenFlow_01_Task(port=0, address="127.0.0.1")
         g = task.run()
@@ -347,6 +380,24 @@ class C10(Check):
             except Spin:
                 spin[0] = True; alive[0] = False
             return True
+        def feed_round(items):
+            # ONE select round in which several connections are readable, served in the given order
+            live = [(i, d) for i, d in items if alive[0] and cons[i] in served]
+            for i, d in live: socks[i].chunks.append(d)
+            if not live: return set()
+            for _ in range(8):
+                # select is level-triggered: a connection whose data was not read in this round (the loop abandons the rest of
+                # a round when one read raises) is reported readable again in the next one
+                rl = [cons[i] for i, _ in live if cons[i] in served and socks[i].chunks]
+                if not rl or not alive[0]: break
+                try:
+                    with cpu_budget(4.0):
+                        g.send((rl, [], []))
+                except StopIteration:
+                    alive[0] = False
+                except Spin:
+                    spin[0] = True; alive[0] = False
+            return set(i for i, _ in live)
         counts = []
         sib_msgs = [[bytes.fromhex(x) for x in s] for s in case["sib"]]
         rx, snap = case.get("rx"), {}
@@ -355,14 +406,27 @@ class C10(Check):
             snap.update(status_pre=("spin" if spin[0] else status(0)), buf_pre=bytes(cons[0].buf).hex())
             feed(0, b"" if rx["kind"] == "eof" else RX_ERRNO[rx["kind"]])
             snap["rx_status"] = "spin" if spin[0] else status(0)
-        for n, ch in enumerate(chunks):
-            if rx and n == rx["after"]: inject()
-            if feed(0, ch): counts.append(len(delivered))
+        order, sibrx = case.get("round"), case.get("sibrx")
+        if order:
+            for n in range(max([len(chunks)] + [len(x) for x in sib_msgs])):
+                items = []
+                for i in order:
+                    if i == 0:
+                        if n < len(chunks): items.append((0, chunks[n]))
+                    elif sibrx and sibrx["k"] == i and n == sibrx["at"]:
+                        items.append((i, b"" if sibrx["kind"] == "eof" else RX_ERRNO[sibrx["kind"]]))
+                    elif n < len(sib_msgs[i - 1]) and not (sibrx and sibrx["k"] == i and n > sibrx["at"]):
+                        items.append((i, sib_msgs[i - 1][n]))
+                if 0 in feed_round(items): counts.append(len(delivered))
+        else:
+            for n, ch in enumerate(chunks):
+                if rx and n == rx["after"]: inject()
+                if feed(0, ch): counts.append(len(delivered))
+                for k in (1, 2):
+                    if n < len(sib_msgs[k - 1]): feed(k, sib_msgs[k - 1][n])
+            if rx and rx["after"] >= len(chunks): inject()
             for k in (1, 2):
-                if n < len(sib_msgs[k - 1]): feed(k, sib_msgs[k - 1][n])
-        if rx and rx["after"] >= len(chunks): inject()
-        for k in (1, 2):
-            for m in sib_msgs[k - 1][len(chunks):]: feed(k, m)
+                for m in sib_msgs[k - 1][len(chunks):]: feed(k, m)
         st0 = "spin" if spin[0] else status(0)
         sib_status = [status(1), status(2)]
         if alive[0]:                                       # let the task leave its loop so that its listening socket is released
@@ -374,7 +438,8 @@ class C10(Check):
         if spin[0]: self.spins += 1
         return {"delivered": delivered, "counts": counts, "buf": bytes(cons[0].buf).hex() if st0 == "alive" else None, "status": st0,
                 "sib_status": sib_status, "sib_delivered": sib_del, "loop_alive": alive[0] or spin[0], "table": list(table.values()),
-                "splice": self._splice(objs), "chunks": [c.hex() for c in chunks], "replies": len(socks[0].sent), **snap}
+                "splice": self._splice(objs), "chunks": [c.hex() for c in chunks], "replies": len(socks[0].sent),
+                "gaveup_served": [i for i in range(3) if (gaveup[i] or raised[i]) and cons[i] in served], **snap}
 
     def _impl_sw(self, case):
         iow = self.iow
@@ -431,6 +496,16 @@ class C10(Check):
             socks[i].chunks.append(data); iteration([workers[i]])
             if i == 0 and shut_at[0] is None and is_shut(0): shut_at[0] = len(socks[0].sent) + len(workers[0].send_buf)
             return True
+        def feed_round(items):
+            live = [(i, d) for i, d in items if workers[i] in loop._workers and not workers[i].closed]
+            for i, d in live: socks[i].chunks.append(d)
+            if not live: return set()
+            for _ in range(8):                           # level-triggered select (see the controller side)
+                rl = [workers[i] for i, _ in live if workers[i] in loop._workers and not workers[i].closed and socks[i].chunks]
+                if not rl: break
+                iteration(rl)
+            if shut_at[0] is None and is_shut(0): shut_at[0] = len(socks[0].sent) + len(workers[0].send_buf)
+            return set(i for i, _ in live)
         rx, snap = case.get("rx"), {}
         def st_now():
             return "spin" if state["spin"] else ("closed" if (workers[0] not in loop._workers or workers[0].closed or workers[0]._shutdown_send) else "alive")
@@ -442,15 +517,35 @@ class C10(Check):
             else:
                 feed(0, b"" if rx["kind"] == "eof" else RX_ERRNO[rx["kind"]])
             snap["rx_status"] = st_now()
-        for n, ch in enumerate(chunks):
-            if rx and n == rx["after"]: inject()
-            was_shut = is_shut(0)
-            if feed(0, ch) and not was_shut: counts.append(len(delivered))     # the model stops at the shutdown; later chunks only test survival
+        order, sibrx = case.get("round"), case.get("sibrx")
+        del_at_shut = [None]                               # messages delivered when connection 0 was first seen shut down
+        def note_shut():
+            if del_at_shut[0] is None and is_shut(0): del_at_shut[0] = len(delivered)
+        if order:
+            for n in range(max([len(chunks)] + [len(x) for x in sib_msgs])):
+                items = []
+                for i in order:
+                    if i == 0:
+                        if n < len(chunks): items.append((0, chunks[n]))
+                    elif sibrx and sibrx["k"] == i and n == sibrx["at"]:
+                        items.append((i, b"" if sibrx["kind"] == "eof" else RX_ERRNO[sibrx["kind"]]))
+                    elif n < len(sib_msgs[i - 1]) and not (sibrx and sibrx["k"] == i and n > sibrx["at"]):
+                        items.append((i, sib_msgs[i - 1][n]))
+                was_shut = is_shut(0)
+                if 0 in feed_round(items) and not was_shut: counts.append(len(delivered))
+                note_shut()
+        else:
+            for n, ch in enumerate(chunks):
+                if rx and n == rx["after"]: inject()
+                was_shut = is_shut(0)
+                if feed(0, ch) and not was_shut: counts.append(len(delivered))     # the model stops at the shutdown; later chunks only test survival
+                note_shut()
+                for k in (1, 2):
+                    if n < len(sib_msgs[k - 1]): feed(k, sib_msgs[k - 1][n])
+            if rx and rx["after"] >= len(chunks): inject()
             for k in (1, 2):
-                if n < len(sib_msgs[k - 1]): feed(k, sib_msgs[k - 1][n])
-        if rx and rx["after"] >= len(chunks): inject()
-        for k in (1, 2):
-            for m in sib_msgs[k - 1][len(chunks):]: feed(k, m)
+                for m in sib_msgs[k - 1][len(chunks):]: feed(k, m)
+        note_shut()
         if state["spin"]: self.spins += 1
         st = "spin" if state["spin"] else ("closed" if (workers[0].closed or workers[0]._shutdown_send) else "alive")
         errs, sent, p = [], socks[0].sent + bytes(workers[0].send_buf), 0
@@ -464,7 +559,7 @@ class C10(Check):
         return {"delivered": delivered, "counts": counts, "buf": bytes(workers[0].receive_buf).hex() if st == "alive" else None, "status": st,
                 "sib_status": ["closed" if (workers[k].closed or workers[k]._shutdown_send) else "alive" for k in (1, 2)], "sib_delivered": sib_del, "loop_alive": alive[0],
                 "table": list(table.values()), "splice": self._splice(objs), "chunks": [c.hex() for c in chunks], "replies": len(socks[0].sent),
-                "skips": skips, "errors": errs, **snap}
+                "skips": skips, "errors": errs, "after_shut": (len(delivered) - del_at_shut[0]) if del_at_shut[0] is not None else 0, **snap}
 
     def _splice(self, objs):
         """does any delivered object depend on bytes outside its declared-length window?"""
@@ -510,9 +605,21 @@ class C10(Check):
         if obs["status"] == "spin": return side + ": processing does not terminate (CPU budget exceeded)"
         if not obs["loop_alive"]: return side + ": the I/O loop serving all connections died"
         if obs["status"] == "dead" and side == "sw": return "sw: exception escaped the read path"
+        sibrx = case.get("sibrx")
         for k in (0, 1):
+            if sibrx and sibrx["k"] == k + 1:
+                # this sibling's peer went away at step `at`: IT is closed and no longer served, with everything before delivered
+                want = "alive" if (side == "sw" and sibrx["kind"] == "enoent") else "closed"
+                got = "closed" if obs["sib_status"][k] in ("closed", "dead") else obs["sib_status"][k]
+                if got != want: return side + ": after %s on a sibling's socket that connection is %s, expected %s" % (sibrx["kind"], obs["sib_status"][k], want)
+                if obs["sib_delivered"][k] != case["sib"][k][:sibrx["at"]]: return side + ": messages of the sibling whose peer went away changed or lost"
+                continue
             if obs["sib_status"][k] != "alive": return side + ": sibling connection %s" % obs["sib_status"][k]
             if obs["sib_delivered"][k] != case["sib"][k]: return side + ": sibling connection's messages changed or lost"
+        if obs.get("gaveup_served"):
+            return side + ": a connection whose read gave up or raised is neither closed nor removed from the loop (connection %d)" % obs["gaveup_served"][0]
+        if obs.get("after_shut"):
+            return side + ": %d message(s) were processed on a connection after it had been closed for malformed input" % obs["after_shut"]
         if case.get("rx") and "rx_status" in obs:
             # end of stream / a socket error on ONE connection: that connection is closed (not crashed), the loop and the
             # siblings carry on (checked above); ENOENT on the switch side is the documented "SSL does this sometimes" no-op
